@@ -354,6 +354,16 @@ def replay_file(path, root, incflags, rundir, verbose=False):
 
 
 # ---------------------------------------------------------------------- main
+def sweep_stale(base):
+    """remove scratch dirs of earlier runs whose process is gone (disk hygiene)"""
+    if not os.path.isdir(base):
+        return
+    for d in os.listdir(base):
+        m = re.search(r"-(\d+)$", d)
+        if m and not os.path.exists("/proc/%s" % m.group(1)):
+            shutil.rmtree(os.path.join(base, d), ignore_errors=True)
+
+
 def main():
     ap = argparse.ArgumentParser()
     ap.add_argument("--tier", default=os.environ.get("VERIF_TIER", "quick"), choices=["quick", "thorough"])
@@ -369,6 +379,7 @@ def main():
     th = vlib.tree_hash(root)
     slack = "#define SAFECLIB_STR_NULL_SLACK 1" in open(os.path.join(libdir, "inc", "include", "safe_config.h")).read()
     rundir = os.path.join(BUILD, "%s-s%d-%s-%d" % (th, seed, a.tier, os.getpid()))
+    sweep_stale(BUILD)
     os.makedirs(rundir, exist_ok=True)
 
     if a.replay:
